@@ -380,6 +380,9 @@ func genLine(r *hx.Rand, g *hx.Gen, w *world, malformedPct int) string {
 		k = hx.Pick(r, w.keys).pub
 		if r.Chance(1, 15) {
 			k = hx.Pick(r, w.certs).cert // a certificate blob listed as a plain key
+		} else if r.Chance(1, 8) {
+			k = hx.Pick(r, w.cas).pub // a CA key on a line WITHOUT the @cert-authority marker
+			g.Stat("line.ca-key-unmarked")
 		}
 	}
 	t, b := keyFields(k)
@@ -481,7 +484,15 @@ func genQueries(r *hx.Rand, g *hx.Gen, w *world, t *idtab, n int) (string, strin
 			}
 		}
 		var id int
-		if (rec != nil && rec.marker == "@cert-authority" && r.Chance(5, 6)) || (rec == nil && r.Chance(1, 3)) {
+		isCA := false
+		if rec != nil {
+			for _, ca := range w.cas {
+				if bytes.Equal(ca.pub.Marshal(), rec.key.Marshal()) {
+					isCA = true
+				}
+			}
+		}
+		if (rec != nil && (rec.marker == "@cert-authority" || isCA) && r.Chance(5, 6)) || (rec == nil && r.Chance(1, 3)) {
 			c := hx.Pick(r, w.certs)
 			if rec != nil && r.Chance(5, 6) { // a certificate signed by that line's key, if there is one
 				var cs []certSpec
